@@ -134,6 +134,14 @@ static void part_objects() {
             { TGswKey *rk = new_TGswKey(ps->tgsw_params); TLweSample *c = new_TLweSample(ps->tgsw_params->tlwe_params); Mom rm;
               for (int round = 0; round < 3; round++) { tGswKeyGen(rk); for (int rep = 0; rep < 4; rep++) { tLweSymEncryptZero(c, ps->tgsw_params->tlwe_params->alpha_min, &rk->tlwe_key); ek::ring_phase(ph.data(), c, rk->key, N, k); for (int j = 0; j < N; j++) rm.add((double)ph[j]); } }
               judge(key, "fresh TLWE encryptions under a key object re-generated 3 times", rm, abk, false); }
+            // second generation INTO THE SAME key objects (key rotation in place) for the small sets: the rows must be fresh encryptions under the new keys
+            if (!P.lam) { LweKey *lk2 = new_LweKey(ps->in_out_params); lweKeyGen(lk2); TGswKey *gk2 = new_TGswKey(ps->tgsw_params); tGswKeyGen(gk2);
+              LweBootstrappingKey *bkk = const_cast<LweBootstrappingKey *>(sk->cloud.bk); tfhe_createLweBootstrappingKey(bkk, lk2, gk2);
+              std::vector<int> ext2(k * N); for (int i = 0; i < k; i++) for (int j = 0; j < N; j++) ext2[i * N + j] = gk2->key[i].coefs[j];
+              Mom again; for (int i = 0; i < k * N; i++) for (int j = 0; j < t; j++) for (int h = 1; h < base; h++) { const LweSample *r = &bkk->ks->ks[i][j][h]; uint32_t phh = (uint32_t)ref::lwe_phase(r->a, r->b, lk2->key, n), msg = (uint32_t)(ext2[i] * h) << (32 - (j + 1) * bb); again.add((double)(int32_t)(phh - msg)); }
+              judge(key, "key-switching rows after a second key generation into the same objects", again, aks, true);
+              Mom bagain; for (int i = 0; i < n; i++) for (int p = 0; p < kpl; p++) { ek::ring_phase(ph.data(), &bkk->bk[i].all_sample[p], gk2->key, N, k); int bloc = p / l, dig = p % l; for (int j = 0; j < N; j++) { uint32_t m = 0; if (bloc < k) { /* message -s_i*h on key polynomial bloc: phase contribution -key_bloc * s_i * h */ m = 0u - (uint32_t)(lk2->key[i] * gk2->key[bloc].coefs[j]) * (uint32_t)ps->tgsw_params->h[dig]; } else if (j == 0) m = (uint32_t)lk2->key[i] * (uint32_t)ps->tgsw_params->h[dig]; bagain.add((double)(int32_t)((uint32_t)ph[j] - m)); } }
+              judge(key, "bootstrapping-key rows after a second key generation into the same objects", bagain, abk, false); }
             eval((uint64_t)(all.n + ball.n)); outcome(mix((uint64_t)ball.s2, n));
         }, 900);
         if (f.died()) violation(key, "process died: " + fate_str(f) + " " + f.text.substr(0, 300));
